@@ -27,6 +27,7 @@ type gen struct {
 	nextPh  int64 // placeholders for the name of a function whose index is not known yet (negative)
 	defs    [][]*Form
 	safe    bool
+	nilWrap bool // the wrapping block is (block nil ...)
 	hist    func(string)
 	// scripted choices (systematic family); consumed level by level
 	forceKind []string
@@ -88,8 +89,19 @@ func (g *gen) leaf(c gctx, kind string) *Form {
 		switch {
 		case len(cands) > 0:
 			t = cands[g.rng.Intn(len(cands))]
+			if g.forceExit != "" || g.rng.Chance(40) {
+				t = cands[len(cands)-1] // the outermost one: the exit crosses every form in between
+			}
 		case !g.safe && g.rng.Chance(40):
 			t = 40 + int64(g.rng.Intn(3)) // a block that does not exist
+			if g.rng.Chance(30) {
+				t = 0
+				for _, x := range c.vb {
+					if x == 0 {
+						t = 41
+					}
+				}
+			}
 			g.exitKind = "return-unknown"
 		default:
 			return g.leaf(c, common.Pick(g.rng, []string{"normal", "error"}))
@@ -116,6 +128,9 @@ func (g *gen) leaf(c gctx, kind string) *Form {
 				return &Form{K: "Go", N: 45}
 			}
 			return g.leaf(c, common.Pick(g.rng, []string{"normal", "error", "return"}))
+		}
+		if g.forceExit != "" || g.rng.Chance(40) {
+			return &Form{K: "Go", N: cands[len(cands)-1]}
 		}
 		return &Form{K: "Go", N: cands[g.rng.Intn(len(cands))]}
 	case "error":
@@ -280,7 +295,7 @@ func (g *gen) spine(d int, c gctx) *Form {
 	case "block":
 		g.nextBlk++
 		t := g.nextBlk
-		if g.rng.Chance(15) {
+		if g.rng.Chance(25) {
 			t = 0
 		} else if len(c.vb) > 0 && g.rng.Chance(8) {
 			t = c.vb[g.rng.Intn(len(c.vb))] // shadowing
